@@ -67,6 +67,8 @@ type pathEval struct {
 	ctl *evalCtl
 	// extra: the decisions taken inside the helpers evaluated in place, in the caller's terms
 	extra []pathCond
+	// boolConds: what a call of a boolean helper evaluated in place decides (lt(x, y) ≡ x.Cmp(y) == -1)
+	boolConds map[*ssa.Call]pathCond
 }
 
 type evalCtl struct {
@@ -301,7 +303,7 @@ func (e *pathEval) call(in *ssa.Call) {
 	}
 	pkg := callee.Pkg.Pkg.Path()
 	name := callee.Name()
-	args := in.Call.Args
+	args := core.NormCall(&in.Call).Args
 	if pkg == "math/big" {
 		hasRecv := callee.Signature.Recv() != nil
 		if !hasRecv {
@@ -481,6 +483,16 @@ func (e *pathEval) call(in *ssa.Call) {
 			}
 			res := sub.run(a.ret)
 			e.extra = append(e.extra, sub.conds()...)
+			if len(a.ret.Results) == 1 {
+				if bt, ok := a.ret.Results[0].Type().Underlying().(*types.Basic); ok && bt.Kind() == types.Bool {
+					if pc := sub.classify(a.ret.Results[0], true); pc.kind != "other" {
+						if e.boolConds == nil {
+							e.boolConds = map[*ssa.Call]pathCond{}
+						}
+						e.boolConds[in] = pc
+					}
+				}
+			}
 			for k, pos := range sub.mutated {
 				if _, seen := e.mutated[k]; !seen {
 					e.mutated[k] = pos
@@ -561,6 +573,13 @@ func (e *pathEval) classify(cond ssa.Value, truth bool) pathCond {
 	case *ssa.Call:
 		if q, ok := e.queries[x]; ok && q.kind == "isinf" {
 			return pathCond{kind: "isinf", a: q.a, truth: truth}
+		}
+		if pc, ok := e.boolConds[x]; ok {
+			if !pc.truth {
+				truth = !truth
+			}
+			pc.truth = truth
+			return pc
 		}
 	case *ssa.BinOp:
 		l, r := e.resolve(x.X), e.resolve(x.Y)
